@@ -33,6 +33,8 @@ CHECKS = {
          "seeded search; snapshots compared before/after each daily solution and each clock update, inside multi-day calls too; attempted writes on read-only arrays are classified as violations", "DESIGN.md section 6 C12", "the internal fallow filler crop is not a configured parameter and is excluded"),
  "C15": ("exploration", "deterministic simulation: twin nodes, seeded sequences of benign transport transformations on the weather input channel, bitwise comparison",
          "seeded search over transformation sequences (all 120 column orders within a thorough run); no schedule dimension of its own", "DESIGN.md section 6 C15", "the canonical frame run is the oracle"),
+ "C20": ("exploration", "deterministic simulation: twin nodes, seeded sets of neutral configuration toggles, bitwise comparison, per-toggle bisection on failure",
+         "seeded search over base configurations and toggle sets (alone and in combination); no schedule dimension of its own", "DESIGN.md section 6 C20", "the base configuration run is the oracle"),
 }
 
 NOT_APPLICABLE = {
